@@ -262,6 +262,113 @@ pub fn run_c06(ctx: &Ctx) {
         states.fetch_add(1, Ordering::Relaxed);
     });
     ctx.class("encoder-states(run lengths)", states.load(Ordering::Relaxed));
+    // (b2) the flavour has TWO operations, try_push and try_extend, and a serializer mixes them (single
+    // bytes for u8/bool/tags, chunks for varints, strings, floats). From every run length r - reached by
+    // pushes only, by one extend chunk, or half and half in either order - every sequence of <= 2
+    // operations over {push 00, push 07, extend of a small chunk, extend of a chunk that reaches / crosses
+    // the next block boundary} must leave the storage holding the reference frame (round-8 seeds C06-i and
+    // C20-i: a bulk try_extend fast path whose block counter is not maintained by try_push).
+    #[derive(Clone, Debug)]
+    enum Op {
+        P(u8),
+        E(Vec<u8>),
+    }
+    let mut ops: Vec<Op> = vec![Op::P(0), Op::P(7), Op::E(vec![]), Op::E(vec![7]), Op::E(vec![0]), Op::E(vec![7, 7]), Op::E(vec![7, 0]), Op::E(vec![0, 7])];
+    for e in [100usize, 253, 254, 255] {
+        ops.push(Op::E(vec![7; e]));
+    }
+    if !ctx.quick() {
+        ops.push(Op::E(vec![7, 0, 7]));
+        ops.push(Op::E(vec![7; 509]));
+    }
+    let mut opwords: Vec<Vec<Op>> = vec![vec![]];
+    for a in &ops {
+        opwords.push(vec![a.clone()]);
+        for b in &ops {
+            opwords.push(vec![a.clone(), b.clone()]);
+        }
+    }
+    let maxrun2 = if ctx.quick() { 520 } else { 1020 };
+    let mixed = AtomicU64::new(0);
+    let mixed_boundary = AtomicU64::new(0);
+    (0..=maxrun2).into_par_iter().for_each(|r: usize| {
+        for mode in 0..4usize {
+            // how the run of r non-zero bytes is delivered
+            let (first, second) = match mode {
+                0 => (r, 0),
+                1 => (0, r),
+                _ => (r / 2, r - r / 2),
+            };
+            for (wi, w) in opwords.iter().enumerate() {
+                let order = (5u64 << 32) | (r as u64) << 12 | (mode as u64) << 10 | wi as u64;
+                let res = trap(|| -> Result<(), String> {
+                    let mut flav = Cobs::try_new(LogStore::default()).map_err(|e| format!("try_new {e:?}"))?;
+                    let mut msg_l: Vec<u8> = vec![];
+                    let push_n = |flav: &mut Cobs<LogStore>, n: usize, msg_l: &mut Vec<u8>| -> Result<(), String> {
+                        for _ in 0..n {
+                            flav.try_push(0x66).map_err(|e| format!("try_push {e:?}"))?;
+                            msg_l.push(0x66);
+                        }
+                        Ok(())
+                    };
+                    let ext_n = |flav: &mut Cobs<LogStore>, n: usize, msg_l: &mut Vec<u8>| -> Result<(), String> {
+                        let chunk = vec![0x66u8; n];
+                        flav.try_extend(&chunk).map_err(|e| format!("try_extend {e:?}"))?;
+                        msg_l.extend_from_slice(&chunk);
+                        Ok(())
+                    };
+                    match mode {
+                        0 => push_n(&mut flav, first, &mut msg_l)?,
+                        1 => ext_n(&mut flav, second, &mut msg_l)?,
+                        2 => {
+                            push_n(&mut flav, first, &mut msg_l)?;
+                            ext_n(&mut flav, second, &mut msg_l)?;
+                        }
+                        _ => {
+                            ext_n(&mut flav, first, &mut msg_l)?;
+                            push_n(&mut flav, second, &mut msg_l)?;
+                        }
+                    }
+                    for op in w {
+                        match op {
+                            Op::P(b) => {
+                                flav.try_push(*b).map_err(|e| format!("try_push {e:?}"))?;
+                                msg_l.push(*b);
+                            }
+                            Op::E(c) => {
+                                flav.try_extend(c).map_err(|e| format!("try_extend {e:?}"))?;
+                                msg_l.extend_from_slice(c);
+                            }
+                        }
+                    }
+                    let out = flav.finalize().map_err(|e| format!("finalize {e:?}"))?;
+                    let mut want = cobs_encode(&msg_l);
+                    want.push(0);
+                    if out != want {
+                        return Err(format!("Cobs flavour output after mixed push/extend differs from the reference frame (run {r}, delivery mode {mode}, ops {:?})", w.iter().map(|o| match o { Op::P(b) => format!("push {b:02x}"), Op::E(c) => format!("extend {}x", c.len()) }).collect::<Vec<_>>()));
+                    }
+                    check_frame(&msg_l, &out)
+                });
+                mixed.fetch_add(1, Ordering::Relaxed);
+                let total_len: usize = r + w.iter().map(|o| match o { Op::P(_) => 1, Op::E(c) => c.len() }).sum::<usize>();
+                if total_len / 254 > r / 254 {
+                    mixed_boundary.fetch_add(1, Ordering::Relaxed);
+                }
+                let res = match res {
+                    Ok(x) => x,
+                    Err(p) => Err(format!("panic: {p}")),
+                };
+                if let Err(e) = res {
+                    let mode_name = ["pushes", "one extend", "pushes then extend", "extend then pushes"][mode];
+                    let ops_s = format!("{:?}", w.iter().map(|o| match o { Op::P(b) => format!("push {b:02x}"), Op::E(c) => format!("extend {}", hex(&c[..c.len().min(4)])) + &format!("({} bytes)", c.len()) }).collect::<Vec<_>>());
+                    ctx.violation("cobs-encoder-mixed-ops", e, order, json!({"run_length": r, "delivery_mode": mode_name, "ops": ops_s}));
+                }
+            }
+        }
+    });
+    ctx.class("encoder-mixed-push/extend-executions", mixed.load(Ordering::Relaxed));
+    ctx.class("encoder-mixed-executions-crossing-a-block-boundary", mixed_boundary.load(Ordering::Relaxed));
+    calls.fetch_add(mixed.load(Ordering::Relaxed), Ordering::Relaxed);
     // (e) frame sequences
     let pool: Vec<Val> = vec![
         Val::Bytes(vec![]),
@@ -394,9 +501,11 @@ pub fn run_c06(ctx: &Ctx) {
     ev.bound("run_lengths", json!(runs));
     ev.bound("encoder_run_lengths", json!(format!("0..={maxrun}")));
     ev.bound("event_words", json!(words.len()));
+    ev.bound("mixed_ops_run_lengths", json!(format!("0..={maxrun2} x 4 delivery modes")));
+    ev.bound("mixed_ops_words", json!(format!("{} sequences of <= 2 operations over {} push/extend operations", opwords.len(), ops.len())));
     ev.bound("frame_sequence_len_max", json!(maxseq));
     ev.bound("frame_pool", json!(pool_n));
-    ev.rule = "all messages <= L over {00,01,02,FF} (as u8 tuples) and all run structures around multiples of 254, on slice/heapless/growable storage, compared with an independent COBS encoder (exactly one zero, at the end; length n+n/254+2; decodes back); explicit-state walk of the real Cobs flavour over a logging storage from every run length x every event word <= 3 against a second (streaming) reference; every sequence of frames from the pool decoded frame-at-a-time with exact remainder pointers, with and without the final sentinel".into();
+    ev.rule = "all messages <= L over {00,01,02,FF} (as u8 tuples) and all run structures around multiples of 254, on slice/heapless/growable storage, compared with an independent COBS encoder (exactly one zero, at the end; length n+n/254+2; decodes back); explicit-state walk of the real Cobs flavour over a logging storage from every run length x every event word <= 3 against a second (streaming) reference; from every run length (delivered by pushes, by one extend, or half and half) every sequence of <= 2 operations over push/extend (small chunks and chunks reaching or crossing the next block boundary) against the reference frame; every sequence of frames from the pool decoded frame-at-a-time with exact remainder pointers, with and without the final sentinel".into();
     ev.sample(json!({"plain": "254 x 0x33", "frame": "ff 33*254 01 00"}));
     ev.sample(json!({"frame_sequence": [4, 0, 6], "final_sentinel": false}));
     ev.assumptions = vec!["byte alphabet {00,01,02,FF}: the encoder distinguishes only zero / non-zero and the run length".into()];
